@@ -1,4 +1,3 @@
 package main
 
-func joinSrvMain()            {}
 func childMain(args []string) {}
